@@ -179,9 +179,8 @@ impl AliasParser {
                             Ok((feature, Mods::Number(v.parse().unwrap_or(0))))
                         }
                     },
-                    _ => {
-                        unreachable!();
-                    }
+                    // the lexer also lets an alpha (`A`, `-α`) through here; aliases have no alphas
+                    _ => Err(AliasSyntaxError::ExpectedTokenFeature(self.curr_tkn.clone())),
                 }
             },
             _ => unreachable!(),
